@@ -1,11 +1,11 @@
 CONSTANTS
-  FAMILY = "one"
+  FAMILY = "avar"
   D = 4
   NV = 1
   DeltaVecs <- DV_std
-  Dists <- Dists_two
+  Dists <- Dists_sym
   Lim2 <- Lim2_none
-  MapIds = {1}
+  MapIds = {4}
   Conds <- Conds_quick
 INIT Init
 NEXT Next
